@@ -27,6 +27,8 @@ EXT = {"cif": "cif", "pdb": "pdb", "discus": "stru", "pdffit": "stru", "rawxyz":
 
 NAMEDTUPLE = re.compile(r"^bytes:b'lambda _cls, [A-Za-z_][A-Za-z0-9_, ]*: _tuple_new\(_cls, \([A-Za-z0-9_, ]*\)\)'$")
 
+FORMAT_FIELD_PAYLOADS = ["QZX{0.__class__.__name__}QZX", "P{0[0]}{0[1]}QZX", "{0.no_such_attribute}", "{0.__class__.__mro__}", "{}{}", "{1}"]
+
 PAYLOADS = [
     "__import__('os').mkdir('pwn')",
     'z+[__import__("os").mkdir("pwn")].count(1)',
@@ -188,6 +190,14 @@ def make_cases(ctx):
                 new = list(lines)
                 new[i] = re.sub(r"['\"].*['\"]|\S+,\S+,\S+", lambda m: q + pl + q, lines[i], count=1)
                 add("cif", "\n".join(new), "parse", "symop:%s:%d" % (name, i), payload=pl)
+    # CIF without a symmetry loop: the space-group identifier ends up in the error message - it must be quoted, not used
+    # as a format template (replacement fields are attribute/index lookups on live objects)
+    for k, pl in enumerate(FORMAT_FIELD_PAYLOADS):
+        for item in ("_symmetry_space_group_name_H-M", "_symmetry_Int_Tables_number", "_space_group_IT_number"):
+            text = ("data_x\n_cell_length_a 4\n_cell_length_b 4\n_cell_length_c 4\n_cell_angle_alpha 90\n_cell_angle_beta 90\n"
+                    "_cell_angle_gamma 90\n%s '%s'\nloop_\n_atom_site_label\n_atom_site_fract_x\n_atom_site_fract_y\n"
+                    "_atom_site_fract_z\nC1 0 0 0\n" % (item, pl))
+            add("cif", text, "parse", "format-field:%s:%d" % (item, k), payload=pl)
     # xcfg: hostile auxiliary names (attribute names taken from the file), read and write
     for nm in HOSTILE_NAMES:
         add("xcfg", XCFG_TMPL % nm, "parse", "xcfg-name:" + nm, payload=nm, probe_atoms=True)
@@ -368,6 +378,12 @@ def evaluate(ctx, st, results):
             for k in ("cwd_changed", "scratch_changed", "env_changed", "classes_changed", "sys_path_changed", "module_attrs_changed"):
                 if d.get(k):
                     problems.append("%s: %s" % (k, d[k]))
+            if c["kind"].startswith("format-field:"):
+                det = o.get("detail", "")
+                if "QZXstrQZX" in det or "<class" in det or (c["payload"].startswith("P{0[0]}") and "{0[0]}" not in det and "QZX" in det):
+                    problems.append("the text was used as a str.format template: replacement field evaluated in %r" % det[:80])
+                elif o["outcome"] in ("AttributeError", "IndexError", "KeyError") and "{" in c["payload"]:
+                    problems.append("the text was used as a str.format template: %s raised for %r" % (o["outcome"], c["payload"]))
             if c["kind"].startswith("xcfg-name:") and isinstance(o.get("probe"), list):
                 clob = [p for p in o["probe"] if p[:3] != ["ndarray", "Lattice", "str"]]
                 if clob:
